@@ -607,6 +607,19 @@ func extractHub() {
 			}
 		}
 		set("genesis_import_counters", strings.Join(hs, " | "))
+		// the order of the state writes (source order, consecutive repeats folded): `SetOutgoingTx` stamps every imported
+		// outgoing transaction with the next sequence number, so the sequence counter has to be in place before them
+		var ord []string
+		for _, n := range collect(fd.Body, func(n ast.Node) bool { _, ok := n.(*ast.CallExpr); return ok }) {
+			f := src(n.(*ast.CallExpr).Fun)
+			if !(strings.HasPrefix(f, "k.set") || strings.HasPrefix(f, "k.Set")) {
+				continue
+			}
+			if len(ord) == 0 || ord[len(ord)-1] != f {
+				ord = append(ord, f)
+			}
+		}
+		set("genesis_import_order", strings.Join(ord, " | "))
 	} else {
 		miss("genesis_imported")
 	}
